@@ -200,6 +200,7 @@ type Sim struct {
 	UnknownCalls  int
 	// hooks
 	OnHandlerStart func(r *CallRec)
+	barrier        map[int]chan struct{} // handler op 'B': closed once that handler has seen its context end
 }
 
 func NewSim(e *Env) *Sim {
@@ -486,6 +487,32 @@ func (s *Sim) hop(r *CallRec, ctx context.Context, ss grpc.ServerStream, op Op) 
 		e.Pt("h.await")
 		<-ctx.Done()
 		r.HCtxDoneEv = e.Log("h.ctxdone", "", id, "")
+	case 'B':
+		// a handler that belongs to a session spread over several streams: once its
+		// context is done it returns only after every sibling registered so far has
+		// been cancelled too
+		ch := make(chan struct{})
+		histMu.Lock()
+		if s.barrier == nil {
+			s.barrier = map[int]chan struct{}{}
+		}
+		s.barrier[id] = ch
+		histMu.Unlock()
+		e.Pt("h.await")
+		<-ctx.Done()
+		r.HCtxDoneEv = e.Log("h.ctxdone", "", id, "")
+		close(ch)
+		histMu.Lock()
+		var sib []chan struct{}
+		for k, c := range s.barrier {
+			if k != id {
+				sib = append(sib, c)
+			}
+		}
+		histMu.Unlock()
+		for _, c := range sib {
+			<-c
+		}
 	case 'z':
 		e.Pt("h.sleep")
 		time.Sleep(op.D)
